@@ -10,10 +10,16 @@ from harness.core import canon
 from harness.fingerprint import fp
 
 
+CALLS = [0]
+
+
 def to_container(X, kind):
     if kind == "numpy3d":
         from sktime.utils.data_processing import from_nested_to_3d_numpy
-        return from_nested_to_3d_numpy(X)
+        CALLS[0] += 1
+        a = from_nested_to_3d_numpy(X)
+        # every other array in column-major memory layout (e.g. a transposed view of data stored time-first)
+        return np.asfortranarray(a) if CALLS[0] % 2 else a
     return X
 
 
